@@ -283,6 +283,9 @@ def main():
             if getattr(mod, 'GRAD_MODES', False):
                 # gradient-free statement: a pseudo-random half of the cases runs under torch.no_grad()
                 cfg = dict(cfg, _nograd=int(hashlib.sha256(json.dumps(cfg, sort_keys=True, default=str).encode()).digest()[0] & 1))
+            if getattr(mod, 'MODE_ALIAS', False) and cfg.get('mode') == 'periodization':
+                # the library also takes the PyWavelets alias 'per': a pseudo-random half of the periodization cases use it
+                cfg = dict(cfg, _alias=int(hashlib.sha256(json.dumps(cfg, sort_keys=True, default=str).encode()).digest()[1] & 1))
             try:
                 fail = run_oracle(mod, cfg)
             except Exception as e:
